@@ -350,6 +350,7 @@ func (c *ctx) checkReply(id int, pr plan.Pred, rp model.Packet, srvKey []byte) {
 		} else {
 			// same length: either the pad or the layout differs; deobfuscate with the
 			// header actually sent to tell them apart
+			c.v("C06/reply-not-obfuscated-with-connection-secret", "conn %d: the reply to %s does not deobfuscate to the replied value with the connection's secret", id, hstr(req))
 			de := model.Obfuscate(rp.H, srvKey, rp.Body)
 			if bytes.Equal(de, clear) {
 				c.v("C03/pad-inputs-differ", "conn %d: reply body deobfuscates only with the header as sent %s, not with the mirrored header", id, hstr(rp.H))
